@@ -23,7 +23,17 @@ use rustc_middle::mir::{
     self, AggregateKind, BasicBlock, Body, BorrowKind, Const, ConstValue, Operand, Place,
     PlaceElem, Rvalue, StatementKind, TerminatorKind,
 };
-use rustc_middle::ty::{self, print::with_no_trimmed_paths, Ty, TyCtxt};
+use rustc_middle::ty::print::{
+    with_no_trimmed_paths as wntp, with_no_visible_paths, with_resolve_crate_name,
+};
+use rustc_middle::ty::{self, Ty, TyCtxt};
+
+/// Print with real (not re-exported, not trimmed) paths, always crate-prefixed.
+macro_rules! with_no_trimmed_paths {
+    ($e:expr) => {
+        with_resolve_crate_name!(with_no_visible_paths!(wntp!($e)))
+    };
+}
 use rustc_span::Span;
 
 // ---------------------------------------------------------------- JSON ----
@@ -107,21 +117,11 @@ struct Cx<'tcx> {
 
 impl<'tcx> Cx<'tcx> {
     fn path(&self, did: DefId) -> String {
-        let p = with_no_trimmed_paths!(self.tcx.def_path_str(did));
-        if did.is_local() {
-            format!("{}::{}", self.krate, p)
-        } else {
-            p
-        }
+        with_no_trimmed_paths!(self.tcx.def_path_str(did))
     }
 
     fn path_args(&self, did: DefId, args: ty::GenericArgsRef<'tcx>) -> String {
-        let p = with_no_trimmed_paths!(self.tcx.def_path_str_with_args(did, args));
-        if did.is_local() && !p.starts_with('<') {
-            format!("{}::{}", self.krate, p)
-        } else {
-            p
-        }
+        with_no_trimmed_paths!(self.tcx.def_path_str_with_args(did, args))
     }
 
     fn ty_s(&self, t: Ty<'tcx>) -> String {
